@@ -67,6 +67,34 @@ fn selftest(n: usize) {
         }
     }
     println!("selftest: total {:?} bad {:?}", tot, bad);
+    // multi-document streams
+    let strat = (proptest::collection::vec(doc_strategy(Shape::COMMON_NULL), 1..4), proptest::collection::vec(style_strategy(), 1..3), proptest::collection::vec(proptest::arbitrary::any::<u8>(), 0..4));
+    let mut badn = 0;
+    for _ in 0..n {
+        let (docs, styles, seps) = strat.new_tree(&mut runner).unwrap().current();
+        let t = wr_yaml::write_stream(&docs, &styles, &seps);
+        match rd_yaml::read_stream(t.as_bytes()) {
+            Ok(d) if d.docs == docs => {}
+            other => {
+                badn += 1;
+                if t.len() < 120 {
+                    println!("YAML stream self-mismatch: docs={:?} text={:?} got={:?}", docs.iter().map(Val::brief).collect::<Vec<_>>(), t, other.map(|d| d.docs.iter().map(Val::brief).collect::<Vec<_>>()));
+                }
+            }
+        }
+        let jd: Vec<Val> = docs.iter().filter(|d| wr_json::supports(d)).cloned().collect();
+        let t = wr_json::write_stream(&jd, &styles, &seps);
+        match rd_json::read_stream(t.as_bytes()) {
+            Ok(d) if d == jd => {}
+            other => {
+                badn += 1;
+                if badn < 6 {
+                    println!("JSON stream self-mismatch: text={:?} got={:?}", t, other.map(|d| d.iter().map(Val::brief).collect::<Vec<_>>()));
+                }
+            }
+        }
+    }
+    println!("stream selftest: bad {}", badn);
 }
 
 fn main() {
